@@ -220,6 +220,8 @@ class Evaluator:
             return transpose(self.ev(e.value))
         if isinstance(e, ast.Attribute) and core.src(e) in self.env:
             return self.env[core.src(e)]
+        if isinstance(e, ast.Subscript) and core.src(e) in self.env:
+            return self.env[core.src(e)]  # a named source such as tags["scale"]
         if isinstance(e, ast.Subscript):
             a = self.ev(e.value)
             sl = e.slice
@@ -361,6 +363,8 @@ class Evaluator:
                 axes = list(range(nd))
                 axes[vals[0]], axes[vals[1]] = axes[vals[1]], axes[vals[0]]
                 return permute(base, axes)
+            if f == "range" and len(e.args) == 1 and isinstance(e.args[0], ast.Constant) and isinstance(e.args[0].value, int):
+                return [sp.Integer(i) for i in range(e.args[0].value)]
             if f == "zip" and e.args:
                 seqs = [self.ev(a_) for a_ in e.args]
                 if not all(isinstance(x, list) for x in seqs):
@@ -409,6 +413,28 @@ def run_block(evl: Evaluator, stmts) -> None:
                 raise AnalysisError(f"{evl.where}: append to '{tgt}' which is not a list built here")
             evl.env[tgt] = evl.env[tgt] + [evl.ev(st.value.args[0])]
             continue
+        if isinstance(st, (ast.Assign, ast.AugAssign)) and isinstance(st.targets[0] if isinstance(st, ast.Assign) else st.target, ast.Subscript):
+            tg = st.targets[0] if isinstance(st, ast.Assign) else st.target
+            if len(getattr(st, "targets", [0])) == 1 and isinstance(tg.value, ast.Name) and isinstance(evl.env.get(tg.value.id), list):
+                ix = tg.slice
+                k = ix.value if isinstance(ix, ast.Constant) and isinstance(ix.value, int) else (int(evl.env[ix.id]) if isinstance(ix, ast.Name) and isinstance(evl.env.get(ix.id), (int, sp.Integer)) else None)
+                if k is not None:
+                    val = evl.ev(st.value) if isinstance(st, ast.Assign) else evl.ev(ast.BinOp(left=tg, op=st.op, right=st.value))
+                    arr = list(evl.env[tg.value.id])
+                    if shape(val) != shape(arr[k]):
+                        val = _map2(lambda x, _: x, val, arr[k]) if not shape(val) else val
+                    arr[k] = val
+                    evl.env[tg.value.id] = arr
+                    continue
+            raise AnalysisError(f"{evl.where}: store '{core.norm(core.src(st), 60)}' is outside the array fragment")
+        if isinstance(st, ast.If) and isinstance(st.test, ast.Compare) and len(st.test.ops) == 1 and isinstance(st.test.ops[0], (ast.Is, ast.IsNot)) and isinstance(st.test.comparators[0], ast.Constant) and st.test.comparators[0].value is None:
+            key = core.src(st.test.left)
+            if key not in evl.env:
+                raise AnalysisError(f"{evl.where}: '{core.src(st.test)}' of a value that is not modelled")
+            is_none = evl.env[key] is None
+            take = st.body if is_none == isinstance(st.test.ops[0], ast.Is) else st.orelse
+            run_block(evl, take)
+            continue
         if isinstance(st, ast.For) and not st.orelse:
             it = evl.ev(st.iter)
             if not isinstance(it, list):
@@ -424,6 +450,34 @@ def run_block(evl: Evaluator, stmts) -> None:
                 run_block(evl, st.body)
             continue
         raise AnalysisError(f"{evl.where}: statement '{core.norm(core.src(st), 60)}' is outside the array fragment")
+
+
+def backward_slice(body, target, opaque=()):
+    """the top-level statements of ``body`` (in order) that can influence the expression ``target``: a statement is
+    kept when it binds, augments, stores into or calls a method on a name that is needed; the names it reads become
+    needed.  Names in ``opaque`` are sources (their assignments are not followed)."""
+    needed = {x.id for x in ast.walk(target) if isinstance(x, ast.Name)} - set(opaque)
+    keep = []
+    for st in reversed(body):
+        written = set()
+        for x in ast.walk(st):
+            if isinstance(x, (ast.Assign, ast.AugAssign, ast.AnnAssign)):
+                for t in (x.targets if isinstance(x, ast.Assign) else [x.target]):
+                    for y in ast.walk(t):
+                        if isinstance(y, ast.Name) and isinstance(y.ctx, ast.Store):
+                            written.add(y.id)
+                        elif isinstance(y, ast.Subscript) and isinstance(y.value, ast.Name):
+                            written.add(y.value.id)
+            elif isinstance(x, ast.Expr) and isinstance(x.value, ast.Call) and isinstance(x.value.func, ast.Attribute) and isinstance(x.value.func.value, ast.Name):
+                written.add(x.value.func.value.id)
+            elif isinstance(x, ast.For):
+                for y in ast.walk(x.target):
+                    if isinstance(y, ast.Name):
+                        written.add(y.id)
+        if written & needed:
+            keep.append(st)
+            needed |= {x.id for x in ast.walk(st) if isinstance(x, ast.Name) and isinstance(x.ctx, ast.Load)} - set(opaque)
+    return list(reversed(keep))
 
 
 def equal(a, b) -> bool:
